@@ -121,7 +121,7 @@ CHECKS["C12"] = dict(
 
 ATB = TB + "tokio's LocalSet, futures::Abortable and oneshot channels are replaced by explicit schedules and three-line transition rules (compared on every run, not verified)."
 CHECKS["C13"] = dict(
-    technique="Coq proof (counter invariant by induction over all schedules) on a transition system of sycamore-futures' suspense scopes + differential correspondence over all completion orders + oracle; rendering half by correspondence/oracle only",
+    technique="Coq proof (counter invariant by induction over all schedules) on a transition system of sycamore-futures' suspense scopes + differential correspondence over all completion orders + oracle; rendering half: Coq proofs (invariants over the streaming state machine, all views and gate orders) on Async/Stream.v + correspondence with the real sync / blocking / streaming renders + oracle simulating the inline script",
     text=("Async/Suspense.v models suspense scopes (counter owned by the enclosing scope, parent links), scoped tasks made of chained awaits and their guards. Proved for every program with distinct "
           "task ids, EVERY schedule of task steps and scope disposals and every boundary whose chain of enclosing boundaries is alive: the counter of a boundary equals the number of unfinished tasks "
           "registered under it (CInv, established by init and preserved by every step: C14_counter_invariant_reachable) and therefore is_loading = some unfinished task under the boundary or an "
@@ -131,8 +131,12 @@ CHECKS["C13"] = dict(
           "streaming SSR over views of nested, sibling and dynamically created boundaries with gated async components; it is compared with the REAL render_to_string / render_to_string_await_suspense / "
           "render_to_string_stream (ssr-driver, gates opened in every order, incl. incomplete schedules) on 104 (quick) / 122+ (thorough) (view, order) pairs: step at which the blocking render returns and its "
           "content, which boundaries are streamed after which gate, final document; the oracle simulates the inline script on the real chunks (a fragment whose markers are not yet in the document = child "
-          "before parent), checks shell once, each boundary once, shell + fragments = blocking result = everything resolved. Found and fixed F14 (grandchild streamed before its parent). Theorems for the "
-          "rendering half are in progress (PARTIAL)."),
+          "before parent), checks shell once, each boundary once, shell + fragments = blocking result = everything resolved. Found and fixed F14 (grandchild streamed before its parent). PROVED on Stream.v for ALL views and ALL gate "
+          "orders (Async/StreamFacts.v, axiom-free): the blocking render returns at the first step at which no boundary has a pending task and hangs only if no prefix finishes every task (C13r_blocking_returns_when_finished, "
+          "_never), its result is the fully resolved content (C13r_blocking_content); each boundary is streamed at most once (C13r_stream_once), never before its lexical parent (C13r_stream_parent_first), the inline "
+          "script always finds its markers (C13r_stream_script_never_fails), every boundary that is not loading has been streamed (C13r_stream_live), and once all tasks have finished shell + fragments = the blocking "
+          "result = everything resolved, whatever the order (C13r_stream_equals_blocking). Hypotheses (evaluated on every generated view): unique boundary ids, no async component outside the boundaries; "
+          "counterexamples show both are needed."),
     note=ATB, design="5.C13")
 CHECKS["C14"] = dict(
     technique="Coq proof (absorbing task status, panic-freedom and counter invariant, by induction over all schedules) on the transition system + fault enumeration (a disposal at every step for every scope) against the real executor + oracle",
